@@ -171,7 +171,7 @@ def C02(ctx):
     tlc_must_pass(r, "MCTxFailure (NothingButFees, FailureClass)", required_actions=["Step", "LockFee", "ChargeRoyalty", "RepayLoan", "Fail", "Abort", "Finish"])
     ctx.add_tlc(r)
     hist = events_of(["faults", "history", "seed=%d" % ctx.seed, "n=%d" % (10 if q else 60), "points=%d" % (40 if q else 60)])
-    scen = events_of(["faults", "scenarios", "max=%d" % (2 if q else 1000), "every=%d" % (3 if q else 2), "points=%d" % (30 if q else 60)], timeout=6000)
+    scen = events_of(["faults", "scenarios", "max=%d" % (2 if q else 1000), "every=%d" % (3 if q else 4), "points=%d" % (30 if q else 40)], timeout=6000)
     evs = hist + scen
     receipts = [e for e in evs if e["a"] == "receipt"]
     classes = collections.Counter(e["class"] for e in receipts)
@@ -237,8 +237,8 @@ def C02(ctx):
                     "abort_when_loan_repaid; each receipt is projected to (class, classes of touched substates, (event name, emitter "
                     "class), royalty payments) and decided by TraceTxFailure (ReceiptOk, no rejection after a committed failure as the "
                     "injection point moves later); distinct = distinct projected receipts"
-                    % ("10 seeded manifests + every 3rd transaction of 2 scenarios" if q else "60 seeded manifests + every 2nd transaction of all scenarios at every protocol version",
-                       "every call for N <= 40, else first / last 10 + 40 spread" if q else "every call for N <= 60, else first / last 10 + 60 spread")}
+                    % ("10 seeded manifests + every 3rd transaction of 2 scenarios" if q else "60 seeded manifests + every 4th transaction (and every royalty-paying one) of all scenarios at every protocol version",
+                       "every call for N <= 40, else first / last 10 + 40 spread" if q else "every call for N <= 40..60, else first / last 10 + 40..60 spread")}
 
 
 PROPS = {
